@@ -49,6 +49,7 @@ type World struct {
 	ledgerKindDepth int
 	roMemo          map[*ssa.Function]bool
 	inlineDeep      bool
+	inlTwin         map[string]string
 	inSinkOnPaths   bool
 	inlineHelpers   bool
 	shallowResolve  bool // resolveValue: do not replace helper results by callee-internal values
